@@ -38,7 +38,7 @@ fn hop_str(h: &Hop) -> String {
 	}
 }
 
-fn hops_str(h: &[Hop]) -> String {
+pub fn hops_str(h: &[Hop]) -> String {
 	h.iter().map(hop_str).collect::<Vec<_>>().join(" ")
 }
 
@@ -141,6 +141,11 @@ fn fmt_hist(h: &[(Vec<u8>, Ver)]) -> String {
 /// All time-travel / history observations of one transaction against the model.
 /// Returns (class, text) of the first disagreement and appends a compact answer log.
 pub fn check_versions(txn: &Transaction, model: &VersionModel, all_ts: &[u64], log: &mut String, retention_bounds: Option<&VersionModel>) -> Option<(String, String)> {
+	check_versions_ext(txn, model, all_ts, log, retention_bounds, false)
+}
+
+/// `ignore_order`: compare history answers as multisets (used to look past a known ordering defect).
+pub fn check_versions_ext(txn: &Transaction, model: &VersionModel, all_ts: &[u64], log: &mut String, retention_bounds: Option<&VersionModel>, ignore_order: bool) -> Option<(String, String)> {
 	let mut ts_points: BTreeSet<u64> = [0u64, 5, u64::MAX].into_iter().collect();
 	for t in all_ts {
 		ts_points.extend([t.saturating_sub(1), *t, t + 1]);
@@ -215,6 +220,14 @@ pub fn check_versions(txn: &Transaction, model: &VersionModel, all_ts: &[u64], l
 					}
 				}
 				log.push_str(&format!("h{tomb}{r:?}{limit:?}={};", fmt_hist(&got)));
+				let (mut got, mut exp) = (got, exp);
+				if ignore_order {
+					if limit.is_some() {
+						continue; // which entries a limit keeps depends on the order
+					}
+					got.sort();
+					exp.sort();
+				}
 				if got != exp {
 					if let Some(lb) = retention_bounds {
 						// bracketed: must-keep ⊆ got ⊆ may-keep (per entry), order preserved
@@ -239,7 +252,7 @@ pub fn check_versions(txn: &Transaction, model: &VersionModel, all_ts: &[u64], l
 					return Some((class, format!("history({optname}) forward = {}, expected {}", fmt_hist(&got), fmt_hist(&exp))));
 				}
 				// backward (no limit: the statement does not say which end a limit trims when going backward)
-				if limit.is_none() && retention_bounds.is_none() {
+				if limit.is_none() && retention_bounds.is_none() && !ignore_order {
 					let mut got = vec![];
 					let mut ok = match it.seek_last() {
 						Ok(b) => b,
@@ -281,17 +294,24 @@ pub fn check_versions(txn: &Transaction, model: &VersionModel, all_ts: &[u64], l
 	None
 }
 
-struct Run {
-	failure: Option<(String, String)>,
-	log_hash_after_writes: Vec<u64>,
+pub struct Run {
+	/// were there unflushed versions (non-empty memtables) when the failure was observed?
+	pub unflushed_at_failure: bool,
+	pub failure: Option<(String, String)>,
+	pub log_hash_after_writes: Vec<u64>,
 }
 
 /// Execute one history on one back-end.
-fn run_history(opt: &OptSet, hops: &[Hop]) -> Result<Run, String> {
+pub fn run_history(opt: &OptSet, hops: &[Hop]) -> Result<Run, String> {
+	run_history_ext(opt, hops, false)
+}
+
+fn run_history_ext(opt: &OptSet, hops: &[Hop], ignore_order: bool) -> Result<Run, String> {
 	let mut w = World::new(opt.clone(), &KEYS)?;
 	let mut model = VersionModel::default();
 	let mut all_ts = vec![];
 	let mut run = Run {
+		unflushed_at_failure: false,
 		failure: None,
 		log_hash_after_writes: vec![],
 	};
@@ -335,8 +355,9 @@ fn run_history(opt: &OptSet, hops: &[Hop]) -> Result<Run, String> {
 		let _g = w.rt.as_ref().unwrap().enter();
 		let txn = w.tree().begin_with_mode(Mode::ReadOnly).map_err(|e| format!("{e}"))?;
 		let mut log = String::new();
-		if let Some((c, t)) = check_versions(&txn, &model, &all_ts, &mut log, None) {
+		if let Some((c, t)) = check_versions_ext(&txn, &model, &all_ts, &mut log, None, ignore_order) {
 			run.failure = Some((c, format!("after step {i} {}: {t}", hop_str(h))));
+			run.unflushed_at_failure = w.shape().map(|s| !s.active_empty || !s.immutables.is_empty()).unwrap_or(false);
 			return Ok(run);
 		}
 		if matches!(h, Hop::W(..)) {
@@ -615,7 +636,7 @@ pub fn gen(n: usize, d: usize, kinds: &[Kind], phys: &[Phys]) -> Vec<Vec<Hop>> {
 	out
 }
 
-fn hops_json(h: &[Hop]) -> J {
+pub fn hops_json(h: &[Hop]) -> J {
 	json!(h.iter().map(|x| match x {
 		Hop::W(k, key, ts) => json!({"w": [k.as_str(), String::from_utf8_lossy(key), ts]}),
 		Hop::P(p) => json!({"p": p.as_str()}),
@@ -623,7 +644,7 @@ fn hops_json(h: &[Hop]) -> J {
 	}).collect::<Vec<_>>())
 }
 
-fn hops_from_json(j: &J) -> Vec<Hop> {
+pub fn hops_from_json(j: &J) -> Vec<Hop> {
 	j.as_array()
 		.unwrap()
 		.iter()
@@ -732,7 +753,25 @@ pub fn check(tier: Tier) -> i32 {
 				match crate::util::guarded(|| run_history(opt, l)) {
 					Ok(Ok(run)) => {
 						if let Some((c, t)) = run.failure {
-							found.lock().unwrap().push((i, format!("out-of-order:{name}:{c}"), t));
+							if run.unflushed_at_failure {
+								// root cause (known finding): memtable-resident versions are in commit
+								// order, not timestamp order; look past it with everything flushed
+								found.lock().unwrap().push((i, format!("out-of-order:{name}:unflushed-versions-not-in-timestamp-order"), format!("{c}: {t}")));
+								let mut flushed: Vec<Hop> = vec![];
+								for h in l.iter() {
+									flushed.push(h.clone());
+									if matches!(h, Hop::W(..)) {
+										flushed.push(Hop::P(Phys::FlushAll));
+									}
+								}
+								if let Ok(Ok(run2)) = crate::util::guarded(|| run_history(opt, &flushed)) {
+									if let Some((c2, t2)) = run2.failure {
+										found.lock().unwrap().push((i, format!("out-of-order:{name}:flushed:{c2}"), format!("{} => {t2}", hops_str(&flushed))));
+									}
+								}
+							} else {
+								found.lock().unwrap().push((i, format!("out-of-order:{name}:{c}"), t));
+							}
 						}
 					}
 					Ok(Err(e)) => found.lock().unwrap().push((i, "machinery".into(), e)),
